@@ -51,7 +51,7 @@ ENUM_MAP = {  # carquet enum -> (spec enum, prefix)
 PAGE_ALIAS = {"DATA": "DATA_PAGE", "INDEX": "INDEX_PAGE", "DICTIONARY": "DICTIONARY_PAGE", "DATA_V2": "DATA_PAGE_V2"}
 
 
-def run(ctx):
+def _run(ctx):
     P = ctx.P
     ctx.clause("C05.1 written field ids / wire types equal parquet.thrift (metadata + hand-rolled page header)")
     ctx.clause("C05.2 enum tags equal the specification")
@@ -425,3 +425,14 @@ def _guarded_by(call, node):
         if a.k == "IfStmt":
             return True
     return False
+
+
+def run(ctx):
+    _run(ctx)
+    from ..rules import thriftrt
+    from .. import report
+    ctx.clause("C05.8 what the public writers emit for a fully populated object has parquet.thrift's ids, wire types, element types and required fields (semantic probe)")
+    thriftrt.check(ctx, rule="R5.spec", roundtrip=False)
+    probes = [o for o in ctx.obs if o.key.startswith("spec|")]
+    decided = len(probes) >= 3 and not any(o.status != report.DISCHARGED for o in probes)
+    ctx.count("extraction_gaps_settled_by_probe", thriftrt.settle_extraction(ctx, decided))
